@@ -24,7 +24,9 @@ import (
 	"fmt"
 	"math/rand"
 	"os"
+	"runtime"
 	"strconv"
+	"strings"
 	"sync"
 	"sync/atomic"
 	"testing"
@@ -424,6 +426,70 @@ func TestVerifC03(t *testing.T) {
 		rep.Distinct++
 	}
 
+	// ---- A7 (real time, like A5): the mirror image - the READER's deadline operation (clearing the read deadline after the
+	// response that empties the connection) fails while a sender sits between its write and inFlightUp. The reader fails the
+	// connection; the sender goes on, its own deadline operation fails or not: its call is completed, exactly once, and
+	// nobody is left waiting inside the client.
+	for _, batched := range []bool{false, true} {
+		name := fmt.Sprintf("A7/deadline-op-fails-in-reader-while-a-sender-sits-between-write-and-inFlightUp/batched=%v", batched)
+		func() {
+			var failNext atomic.Bool
+			hook := func(op verifsim.Op) *verifsim.Fault {
+				if op.Kind == verifsim.OpReadDeadline && op.Time.IsZero() && failNext.CompareAndSwap(true, false) {
+					return &verifsim.Fault{Err: verifsim.ErrInjected}
+				}
+				return nil
+			}
+			opts := rcOpts{queueSize: 1, hook: hook}
+			if batched {
+				opts = rcOpts{queueSize: 2, flushInterval: time.Millisecond, hook: hook}
+			}
+			env := newRCEnv(opts)
+			c1 := env.newCall("a7x", "get", batched)
+			env.goQueue(c1)
+			var req *verifsim.Request
+			select {
+			case req = <-env.reqs:
+			case <-time.After(5 * time.Second):
+				rep.bad("harness:a7", "%s: the first request never reached the server", name)
+				return
+			}
+			time.Sleep(50 * time.Millisecond)  // (the first sender is through inFlightUp)
+			g := env.gates.arm("send.written") // the second sender: written, not yet counted
+			c2 := env.newCall("a7y", "get", batched)
+			env.goQueue(c2)
+			select {
+			case <-g.parked:
+			case <-time.After(5 * time.Second):
+				rep.bad("harness:a7", "%s: the second sender never reached send.written", name)
+				return
+			}
+			failNext.Store(true)
+			if batched {
+				env.respondMulti(req, multiPlan{})
+			} else {
+				env.respondOK(req, 1, false)
+			}
+			for i := 0; i < 400 && !env.isDone(); i++ { // the reader's deadline operation failed and it failed the client
+				time.Sleep(5 * time.Millisecond)
+			}
+			close(g.release)
+			time.Sleep(300 * time.Millisecond)
+			env.quiesce()
+			o.flush(name, env)
+			// nobody is left waiting INSIDE the client either: a goroutine of the client still blocked on one of the client's
+			// mutexes now will be so for ever (everything has come to rest)
+			if where := rcBlockedOnClientMutex(); where != "" {
+				rep.bad("client-deadlock:"+where, "%s: after the connection was failed and everything came to rest, a goroutine of the client is blocked on a mutex of the "+
+					"client in %s - for ever, with whoever called it", name, where)
+			}
+			env.c.Close()
+			env.srv.Close()
+			close(env.stop)
+		}()
+		rep.Distinct++
+	}
+
 	// ---- B: k-th operation fails
 	flavours := []string{"w0", "whalf", "eof", "reset", "deadline", "deadline-soft", "close"}
 	for wi, w := range c03workloads {
@@ -539,6 +605,28 @@ func TestVerifC03(t *testing.T) {
 		verifsim.Bubble(t, func(t *testing.T) { c03run(o, nm, w, f, 0, js) })
 		rep.Distinct++
 	}
+}
+
+// rcBlockedOnClientMutex looks at all goroutines: the function of the client (not of the harness) in which a goroutine is
+// blocked on a sync.Mutex / RWMutex, "" if there is none.
+func rcBlockedOnClientMutex() string {
+	buf := make([]byte, 8<<20)
+	buf = buf[:runtime.Stack(buf, true)]
+	for _, g := range strings.Split(string(buf), "\n\n") {
+		lines := strings.Split(g, "\n")
+		if len(lines) < 3 || !(strings.Contains(lines[0], "Mutex.Lock") || strings.Contains(lines[0], "Mutex.RLock") || strings.Contains(lines[0], "semacquire")) {
+			continue
+		}
+		for _, l := range lines[1:] {
+			if strings.HasPrefix(l, "github.com/tsuna/gohbase/region.(*client).") && !strings.Contains(g, "zz_verif") {
+				return strings.TrimPrefix(strings.SplitN(l, "(0x", 2)[0], "github.com/tsuna/gohbase/region.")
+			}
+			if strings.HasPrefix(l, "github.com/tsuna/gohbase/region.") {
+				break
+			}
+		}
+	}
+	return ""
 }
 
 // c03gated wraps a call so that the harness can hold the sender while it serialises the request.
